@@ -134,6 +134,21 @@ struct WriteWin {
     ~WriteWin() { win_close(a, true); }
 };
 
+// Payload whose move constructor empties its source: a wrapper constructed from an rvalue must end up with the
+// value in every internal copy (a constructor that forwards the same rvalue twice does not).
+struct MPair {
+    int a, b;
+    explicit MPair(int v): a(v), b(v) {}
+    MPair(const MPair& o): a(o.a), b(o.b) {}
+    MPair(MPair&& o) noexcept: a(o.a), b(o.b) { o.a = o.b = -7777; }
+    MPair& operator=(const MPair& o)
+    {
+        a = o.a;
+        b = o.b;
+        return *this;
+    }
+};
+
 // fault-injection sites used by payload operations (C20)
 enum Site { SITE_COPY = 0, SITE_ASSIGN = 1, SITE_EQ = 2, SITE_FUNC = 3, SITE_PRED = 4, SITE_CALLBACK = 5, SITE_FUNC2 = 6, SITE_ALLOC = 7, SITE_CTOR = 8 };
 
